@@ -9,6 +9,7 @@ CONSTANTS
   NOCOPY = {}
   OBJ = "tmap"
   ALIASARG = FALSE
+  SAMEKEEP = FALSE
   UNWRITTEN = {}
   EmitMode = 1
 INVARIANT Coherent
